@@ -4,6 +4,7 @@ Model: Pyc/Model/Refs.lean; helper lemmas: Pyc/Proofs/Refs.lean; load order and 
 look-ups: Pyc/Generated/LoadOrder.lean (regenerated from the AST on every run).
 -/
 import Pyc.Proofs.Refs
+import Pyc.Proofs.DirectTex
 import Pyc.Generated.LoadOrder
 
 namespace Pyc.Props.C07
@@ -169,6 +170,52 @@ open Pyc.Generated.LoadOrder in
     (`nodes` referring to `nodes` is the retry loop above) -/
 theorem deps_precede : deps.all (fun d => decide (order.idxOf d.2 < order.idxOf d.1)) = true := by decide
 
+/-! ### textures that name an image directly (the repair branch of `Effect.load`, Pyc/Model/DirectTex.lean) -/
+
+open Pyc.DirectTex in
+/-- whatever properties name whatever images in whatever order: two properties naming one image hold
+    the identical made-up sampler -/
+theorem direct_one_sampler_per_image (ps : List (String × String)) (k₁ k₂ im : String) (u₁ u₂ : Nat)
+    (h₁ : (k₁, im, u₁) ∈ (run ps).maps) (h₂ : (k₂, im, u₂) ∈ (run ps).maps) : u₁ = u₂ := by
+  have i := inv_run ps
+  have a := i.maps_scope k₁ im u₁ h₁
+  have b := i.maps_scope k₂ im u₂ h₂
+  rw [a] at b; exact Option.some.inj b
+
+open Pyc.DirectTex in
+/-- … that sampler is THE parameter of the effect carrying the id, and no id is carried by two parameters -/
+theorem direct_sampler_is_the_param (ps : List (String × String)) :
+    ((run ps).params.map (·.1)).Nodup ∧
+    (∀ k im u, (k, im, u) ∈ (run ps).maps → (PId.samp im, u) ∈ (run ps).params) ∧
+    (∀ id u u', (id, u) ∈ (run ps).params → (id, u') ∈ (run ps).params → u = u') := by
+  have i := inv_run ps
+  refine ⟨i.nodup, fun k im u h => i.scope_param _ _ (i.maps_scope k im u h), ?_⟩
+  intro id u u' h h'
+  have a := i.param_scope id u h
+  have b := i.param_scope id u' h'
+  rw [a] at b; exact Option.some.inj b
+
+open Pyc.DirectTex in
+/-- every property gets a map: the number of maps is the number of properties, in order -/
+theorem direct_every_property_mapped (ps : List (String × String)) :
+    (run ps).maps.map (fun m => (m.1, m.2.1)) = ps := by
+  have : ∀ s : St, (ps.foldl step s).maps.map (fun m => (m.1, m.2.1)) = s.maps.map (fun m => (m.1, m.2.1)) ++ ps := by
+    induction ps with
+    | nil => intro s; simp
+    | cons p t ih =>
+      intro s
+      rw [List.foldl_cons, ih]
+      unfold step
+      cases s.scope.get (.samp p.2) <;> simp
+  simpa [run, init] using this init
+
+open Pyc.DirectTex in
+/-- the negative: making the pair up without registering it in the scope gives two samplers for one
+    image and two parameters with one id -/
+theorem direct_throwaway_breaks : ∃ ps : List (String × String),
+    ((runThrowaway ps).maps.map (·.2.2)) = [1, 3] ∧ ¬ ((runThrowaway ps).params.map (·.1)).Nodup :=
+  ⟨[("emission", "img0"), ("diffuse", "img0")], by decide⟩
+
 /-! ### non-vacuity -/
 def dA : NodeDef := ⟨"A", ["B", "C"]⟩
 def dB : NodeDef := ⟨"B", ["C"]⟩
@@ -179,5 +226,8 @@ example : loadNodes [dA, dB, dC] = (["C", "B", "A"], []) := by decide
 example : library [dA, dB, dC] = ["A", "B", "C"] := by decide
 example : (loadNodes [dS, dA, dD, dC, dB]).1 = ["C", "B", "A"] ∧ (loadNodes [dS, dA, dD, dC, dB]).2 = [dS, dD] := by decide
 example : resolveUrl [⟨1, "x"⟩, ⟨2, "y"⟩] (writeUrl ⟨2, "y"⟩) = .obj ⟨2, "y"⟩ := by decide
+
+example : (Pyc.DirectTex.run [("emission", "a"), ("ambient", "b"), ("diffuse", "a")]).maps
+    = [("emission", "a", 1), ("ambient", "b", 3), ("diffuse", "a", 1)] := by decide
 
 end Pyc.Props.C07
